@@ -8,7 +8,22 @@ from props import cluster
 PID = "C12"
 
 
+def _entry_points(rep, tier, seed):
+    """ValidateBlockConsensus / GetMemberIdsFromBlockProof on systematically built and malformed proofs: no panic."""
+    import json
+    from props import tables
+
+    def classify(line, tags):
+        return {"tags": tags, "mangle": line["case"]["mangle"]}, "block-proof entry point panicked on case %s" % json.dumps(line["case"])
+
+    n = 800 if tier == "quick" else 20000
+    # the trace spec tags a panic c02_panic; under C12 it is the same observation read as "never panic out to the caller"
+    lines, bad = tables.run_table(rep, PID, "blockproof", ["-seed", seed, "-rand", n, "-mangle", 2 * n], "Trace_BlockProof", "Trace_BlockProof.cfg",
+                                  classify, sample_keys=["result", "ids"], distinct_key=lambda e: e["case"], tag_filter=lambda t: t == "c02_panic")
+
+
 def _extra(rep, tier, seed):
+    _entry_points(rep, tier, seed)
     try:
         from props import runtime
     except ImportError:
